@@ -170,6 +170,10 @@ func (s *c12) Final(w *World) *Violation {
 		// one that ends inside the prefix or inside the body (io.ErrUnexpectedEOF) is malformed
 		if wm.Err != nil && wm.Err != io.EOF {
 			wantErrA++
+			// ... and its stream is reset by the node
+			if wm.Delivered != 0 && w.Net.ResetWhy(wm.Stream) != "reset by reader" {
+				return &Violation{Property: "C12", Rule: "R2", Signature: "malformed-stream-not-reset", Detail: fmt.Sprintf("stream %s carried an undecodable message (%v) and was not reset by the node (reset: %q)", wm.Stream, wm.Err, w.Net.ResetWhy(wm.Stream))}
+			}
 		}
 	}
 	gotErrA := 0
